@@ -66,3 +66,17 @@ func init() {
 		NotCovered: "that Cell.Distance*/MaxDistance* are true bounds (numeric), optimality of the returned set on concrete data.",
 	}
 }
+
+func init() {
+	Properties["C07"] = PropertySpec{
+		Rules: []string{"R-CONJ", "R-BOUNDGUARD", "R-PAIR"},
+		Explanation: "Point-set semantics of loop/polygon relations, reduced to the structural contract of the two-index walk: both crossing targets must match (with the right polarity, on the right loop's cell), the relations return their documented targets, " +
+			"the two crossers mirror each other, wedges are passed in A-first order, and bound-based early rejection only uses the bound grown for sub-regions, which is kept in step with the bound.",
+		NotCovered: "the set-algebra laws on concrete pairs; wedge predicates' numeric correctness; nesting-depth parity of assembled polygons.",
+	}
+	Properties["C10"] = PropertySpec{
+		Rules:       []string{"R-PAIR", "R-BOUNDGUARD"},
+		Explanation: "Conservative bounds, reduced to: every write of a loop/polygon bound is paired with the derived sub-region bound, and containment rejection uses that grown bound.",
+		NotCovered:  "sufficiency of the error constants; that RectBounder's per-edge latitude extremum is right; convex hull convexity.",
+	}
+}
